@@ -45,6 +45,14 @@ IDENTS = ["none", "zid", "mzid", "long", "zid-late-year", "mzid-late-year", "zid
 TAILS = ["single", "cont", "bullet", "bullet_lookalike"]
 
 
+# word FORMS the grammar admits in a body (the look-alike alphabet above varies the words'
+# meaning; this one varies their shape); bodies are every ordered pair of forms
+FORMS = ["plain", "#tg", "@cx", "+pj", "%pe", "[[lk]]", "[[d/lk#anc]]", "[#gid]", "[^loc]", "[@rid]",
+         "[240101#0E]", "k::v", "[ik:: v w]", "[ik:: v]", '"quoted words"', "'single q'", "(paren)",
+         "https://ex.com/a/b?q=1", "word,", "a-b", "*", ";", "((emb))", "a::b::c"]
+RICH_PREFIXES = [("-", None, "none"), ("o", "P1", "mzid"), ("x", None, "zid"), ("<", None, "long")]
+
+
 def _is_written_prefix(kind, prio, ident, first_word):
     """A first body word that *is* a prefix by the format's own rule."""
     if ident == "none":
@@ -184,6 +192,14 @@ def _build(ctx, case):
         item = _mk_item(ctx.seed, k, p, ident, widx, tail)
         page = M.APage(title=[M.W("t")], top_blocks=[[item]], gap_after_head=gap)
         return page
+    if kind == "rich":
+        _, pi, a, b, lead = case
+        k, p, ident = RICH_PREFIXES[pi]
+        item = _mk_item(ctx.seed, k, p, ident, [0], "single")
+        toks = (["lead"] if lead else []) + FORMS[a].split(" ") + FORMS[b].split(" ") + ["end"]
+        item.words = [M.W(t) for t in toks]
+        other = _mk_item(ctx.seed, "-", None, "none", [1], "single")
+        return M.APage(title=[M.W("t")], top_blocks=[[item, other]])
     _, layout, idxs = case
     red = _reduced_items(ctx.seed)
     return _page_multi(ctx.seed, layout, [red[i] for i in idxs])
@@ -272,6 +288,13 @@ def _cases(ctx):
         if not ctx.quick:
             for idxs in it.product(range(24), repeat=2):
                 cases.append(["multi", layout, list(idxs)])
+    # every ordered pair of word forms as (part of) a body
+    for pi in range(len(RICH_PREFIXES)):
+        for a in range(len(FORMS)):
+            for b in range(len(FORMS)):
+                if ctx.quick and (a + b + pi) % 2:
+                    continue
+                cases.append(["rich", pi, a, b, (a + b) % 3 != 0])
     # long pages: every rotation of the 24-item alphabet, repeated 1x, 2x and 5x
     for rot in range(24):
         for rep in ((1, 2) if ctx.quick else (1, 2, 5)):
@@ -302,7 +325,8 @@ def run(ctx: F.Ctx):
             "pairs (quick) / pairs and triples (thorough) of a 24-item reduced alphabet in 5 "
             "layouts (same block, two blocks, in-block comment between, second under a new H1, "
             "under H1>H2>H3>H4, an item line without body text between the items), plus long pages (24, 48, 120 items over several blocks and sections, "
-            "line numbers up to three digits). Section path and block index of every note are compared too. Each page is a trace of the line-event machine; model states = "
+            "line numbers up to three digits), plus items whose body is every ordered pair of 24 word FORMS (tags, the link kinds, "
+            "properties, inline properties, quoted and parenthesised words, a URL, punctuation) under 4 prefixes. Section path and block index of every note are compared too. Each page is a trace of the line-event machine; model states = "
             "(section stack, previous item's prefix shape, event). Non-trivial = multi-item page "
             "or a body containing a prefix look-alike."
         ),
